@@ -14,7 +14,17 @@ import (
 var lineAlpha = []rune{'a', 'a', 'b', 'b', 'A', 'B', 'é', 'É', 'ö', '1', '_', '-', '/', '.', ' ', ' ', '^', '$', '\'', '!', '|'}
 var bodyAlpha = []rune{'a', 'b', 'A', 'B', 'é', 'É', 'ö', 'o', 'e', '1', '_', '-', '/', '.'}
 
-type Gen struct{ R *rand.Rand }
+// Gen generates workloads. Scheme is fixed for the lifetime of a worker process:
+// algo.Init keeps package-level state that is only initialised once per fzf
+// process, so one process must not mix schemes in library mode.
+type Gen struct {
+	R      *rand.Rand
+	Scheme string
+}
+
+var workerSchemes = []string{"", "default", "path", "history"}
+
+func NewGen(r *rand.Rand, w int) *Gen { return &Gen{R: r, Scheme: workerSchemes[w%len(workerSchemes)]} }
 
 func (g *Gen) Line(max int) string {
 	n := g.R.Intn(max + 1)
@@ -161,7 +171,6 @@ type OptSet struct {
 }
 
 var tiebreaks = []string{"", "length", "begin", "end", "chunk", "index", "pathname", "length,begin", "end,length", "begin,end,index", "chunk,length", "pathname,length"}
-var schemes = []string{"", "default", "path", "history"}
 
 func (g *Gen) Options() OptSet {
 	o := OptSet{Ref: refq.Opts{Extended: true, Case: "smart"}}
@@ -200,7 +209,7 @@ func (g *Gen) Options() OptSet {
 		o.Args = append(o.Args, "--tac")
 		o.Tac = true
 	}
-	if s := schemes[g.R.Intn(len(schemes))]; s != "" {
+	if s := g.Scheme; s != "" {
 		o.Args = append(o.Args, "--scheme="+s)
 		o.Scheme = s
 	}
